@@ -18,7 +18,9 @@
     from the property text).  The correspondence run evaluates the recorder
     instance of the same [process_msg] against sio.Crew on every check. *)
 From Coq Require Import List String Permutation.
+From Sheens Require Import Model.Match.   (* first: the sio modules' names (ord_id) take precedence *)
 From Sheens Require Import Model.SioRecorder Spec.SioSpec Proofs.SioRouting Proofs.SioRecorderFacts Proofs.SioStrip.
+From Sheens Require Import Gen.SioSpecs Proofs.SioSpecTie.
 Import ListNotations.
 Open Scope string_scope.
 
@@ -184,3 +186,98 @@ Proof.
   exists c, store. vm_compute in H. injection H as <- <-.
   eexists. vm_compute. repeat split.
 Qed.
+
+(** * The service machines' start nodes: the model's hand-written routing
+      predicates are what the specifications in the source say
+
+    The model does not run the timers machine and the captain through the
+    engine model: [present] asks [tm_shape] whether the timers machine reacts
+    to a message, and treats every message routed to the captain as presented
+    to node "do".  Both are copies of node "start" of Crew.NewTimersSpec
+    (sio/timersspec.go) and Crew.NewCaptainSpec (sio/captainspec.go).
+    Gen/SioSpecs.v, regenerated from the tree under test on every check by
+    harness/cmd/genconsts (go/ast), holds those nodes' branches (pattern as a
+    [json] term, target; source order) and branching types; the theorems
+    below compute with them, so a change of the patterns in the source breaks
+    them.  [accepts bs msg p] (Proofs/SioSpecTie.v): the matcher model's entry
+    point [Match p msg bs] - what [try_branch] of the engine model asks for a
+    message branch - is [Ok] of at least one candidate.
+
+    The bindings are those of the machine waiting in "start": any map that
+    binds none of the patterns' variables (the timers machine keeps "timers"
+    and possibly "error", the captain nothing or "error").  No hypothesis on
+    the message (none of well-formedness either: [tm_shape] and the matcher
+    model both read a repeated key at its first occurrence). *)
+
+(** [tm_shape] = some branch of the timers machine's start node is taken *)
+Theorem C14_sio_timers_shape_is_source_patterns : forall bs msg,
+  lookup "?in" bs = None -> lookup "?msg" bs = None -> lookup "?id" bs = None ->
+  tm_shape msg = existsb (fun pt => accepts bs msg (fst pt)) sio_timers_start_branches.
+Proof. exact tm_shape_is_start_branches. Qed.
+
+(** and no branch fails to be matched (error, fuel): "not taken" is "does not match" *)
+Theorem C14_sio_timers_start_never_errs : forall bs msg,
+  lookup "?in" bs = None -> lookup "?msg" bs = None -> lookup "?id" bs = None ->
+  forall pt, In pt sio_timers_start_branches -> exists r, Match (fst pt) msg bs = Ok r.
+Proof. exact timers_start_never_errs. Qed.
+
+(** the captain's start node has a branch, every branch leads to "do" and
+    takes every message *)
+Theorem C14_sio_captain_start_accepts_all :
+  sio_captain_start_branches <> []
+  /\ (forall pt, In pt sio_captain_start_branches -> snd pt = "do")
+  /\ forall msg bs, lookup "?op" bs = None ->
+     forall p, In p (map fst sio_captain_start_branches) ->
+     exists r, Match p msg bs = Ok r /\ r <> [].
+Proof. exact captain_start_accepts_all. Qed.
+
+(** both start nodes wait for a message *)
+Theorem C14_sio_service_start_nodes_take_messages :
+  sio_timers_start_type = "message" /\ sio_captain_start_type = "message".
+Proof. exact service_start_nodes_take_messages. Qed.
+
+Print Assumptions C14_sio_timers_shape_is_source_patterns.
+Print Assumptions C14_sio_timers_start_never_errs.
+Print Assumptions C14_sio_captain_start_accepts_all.
+Print Assumptions C14_sio_service_start_nodes_take_messages.
+
+(** non-vacuity: with the bindings {"timers": {}} a makeTimer request takes
+    "make", a cancelTimer request "cancel"; a makeTimer request without "id",
+    a string and an array holding a request take nothing; [tm_shape] agrees *)
+Definition c14_tm_bs : bindings := [("timers", JObj [])].
+Definition c14_tm_make : json :=
+  JObj [("makeTimer", JObj [("id", JStr "t1"); ("in", JStr "1s"); ("msg", JObj [("to", JStr "a")])])].
+Definition c14_tm_cancel : json := JObj [("cancelTimer", JStr "t1")].
+Definition c14_tm_make_no_id : json := JObj [("makeTimer", JObj [("in", JStr "1s"); ("msg", JNum 4)])].
+Definition c14_tm_both : json :=
+  JObj [("cancelTimer", JStr "t0"); ("makeTimer", JObj [("id", JStr "t1"); ("in", JStr "1s"); ("msg", JNull)])].
+
+Example C14_sio_timers_shape_nonvacuous :
+  taken c14_tm_bs c14_tm_make sio_timers_start_branches = ["make"] /\ tm_shape c14_tm_make = true
+  /\ taken c14_tm_bs c14_tm_cancel sio_timers_start_branches = ["cancel"] /\ tm_shape c14_tm_cancel = true
+  /\ taken c14_tm_bs c14_tm_make_no_id sio_timers_start_branches = [] /\ tm_shape c14_tm_make_no_id = false
+  /\ taken c14_tm_bs (JStr "makeTimer") sio_timers_start_branches = [] /\ tm_shape (JStr "makeTimer") = false
+  /\ taken c14_tm_bs (JArr [c14_tm_cancel]) sio_timers_start_branches = [] /\ tm_shape (JArr [c14_tm_cancel]) = false
+  /\ Match (fst (hd (JNull, "") sio_timers_start_branches)) c14_tm_make c14_tm_bs
+     = Ok [[("?id", JStr "t1"); ("?in", JStr "1s"); ("?msg", JObj [("to", JStr "a")]); ("timers", JObj [])]].
+Proof. vm_compute. repeat split. Qed.
+
+(** what the model abstracts: one message can match both patterns; the source
+    tries the branches in order ("make" first); [tm_shape] only says that the
+    timers machine reacts *)
+Example C14_sio_timers_both_branches_can_match :
+  taken c14_tm_bs c14_tm_both sio_timers_start_branches = ["make"; "cancel"] /\ tm_shape c14_tm_both = true.
+Proof. vm_compute. split; reflexivity. Qed.
+
+(** the hypothesis on the bindings is needed: had the timers machine kept
+    ?id = "t0", it would not react to a request for another id *)
+Example C14_sio_timers_bound_id_refuted :
+  tm_shape c14_tm_cancel = true
+  /\ existsb (fun pt => accepts [("?id", JStr "t0")] c14_tm_cancel (fst pt)) sio_timers_start_branches = false.
+Proof. vm_compute. split; reflexivity. Qed.
+
+Example C14_sio_captain_start_nonvacuous :
+  taken [] (JStr "x") sio_captain_start_branches = ["do"]
+  /\ taken [("error", JStr "no op")] c14_tm_cancel sio_captain_start_branches = ["do"]
+  /\ Match (JStr "?op") JNull [] = Ok [[("?op", JNull)]].
+Proof. vm_compute. repeat split. Qed.
